@@ -26,7 +26,39 @@ def gen_tables(ctx):
            "Definition gen_is_hex := lookup gen_hex_table.\n"
            "Definition gen_is_flt := lookup gen_flt_table.\n")
     write_if_changed(GEN / "Gen_ScanTables.v", txt)
+    gen_scan_types(ctx)
     return rows
+
+
+def gen_scan_types(ctx):
+    """the scan-type enum (pkg/scan/type.go TypeNames), the two inferrer dispatch tables and the flag -> inferrer selection
+    (pkg/mlrval/mlrval_infer.go), read out of the built packages by 'implrun scan-tables'"""
+    rc, out, err = sh([ctx.implrun(), "scan-tables"])
+    if rc != 0:
+        raise RuntimeError("scan-tables failed: " + err[-500:])
+    types, normal, octal, select, examples = [], [], [], [], []
+    for l in out.splitlines():
+        p = l.split(" ", 2)
+        if p[0] == "type":
+            types.append((int(p[1]), p[2]))
+        elif p[0] == "normal":
+            normal.append(p[2])
+        elif p[0] == "octal":
+            octal.append(p[2])
+        elif p[0] == "select":
+            select.append((p[1], p[2]))
+        elif p[0] == "example":
+            examples.append((p[1], int(p[2])))
+    q = lambda x: '"%s"' % x
+    txt = ("(* REGENERATED on every run from pkg/scan/type.go (TypeNames) and pkg/mlrval/mlrval_infer.go (normalInferrerTable, "
+           "leadingZeroAsIntInferrerTable, the SetInferrer setters) via 'implrun scan-tables'. *)\n"
+           "Require Import String List.\nImport ListNotations.\nOpen Scope string_scope.\n"
+           "Definition gen_type_names : list (nat * string) := [%s].\n" % "; ".join("(%d, %s)" % (i, q(n)) for i, n in types) +
+           "Definition gen_normal_table : list string := [%s].\n" % "; ".join(q(n) for n in normal) +
+           "Definition gen_octal_table : list string := [%s].\n" % "; ".join(q(n) for n in octal) +
+           "Definition gen_selectors : list (string * string) := [%s].\n" % "; ".join("(%s, %s)" % (q(k), q(v)) for k, v in select) +
+           "Definition gen_examples : list (string * nat) := [%s].\n" % "; ".join("(%s, %d)" % (q(k), v) for k, v in examples))
+    write_if_changed(GEN / "Gen_ScanTypes.v", txt)
 
 
 # ---- documented grammar, Python rendering: used ONLY to search for / confirm a failing input
@@ -205,7 +237,7 @@ def run(ctx):
     ctx.assumptions = ["strconv is modelled, not verified", "JSON decoder and DSL lexer contexts are tied through mlr runs only"]
     gen_tables(ctx)
     forbidden_gate(ctx, ["Base", "C06"])
-    ok, why = check_props(ctx, "C06/Props.v", ["C06/TableProofs.vo", "C06/Harness.vo"])
+    ok, why = check_props(ctx, "C06/Props.v", ["C06/TableProofs.vo", "C06/Harness.vo", "C06/GrammarAccept.vo", "C06/Tables.vo"])
     strings = gen_strings(ctx)
     with ctx.timed("impl"):
         scans = impl_scan(ctx, strings)
@@ -266,6 +298,7 @@ def run(ctx):
             ctx.violation({"broken": "documented-grammar oracle", "flag": f, "input_hex": s.hex(), "observed": o, "expected_by_grammar": r,
                            "class": classify_witness(s, o, r)})
     cli_contexts(ctx)
+    sort_contexts(ctx)
     known_probe(ctx)
 
 
@@ -273,6 +306,102 @@ def classify_witness(s, o, r):
     if re.fullmatch(rb"[+-]?[0-9]+", s) and o[0] == "string" and r[0] in ("float",):
         return "decimal-int-out-of-int64-range-infers-string"
     return "other"
+
+
+SORT_VARIANTS = (("sort -nf", ["sort", "-nf", "x"]), ("sort -nr", ["sort", "-nr", "x"]), ("sort -nf x -f id", ["sort", "-nf", "x", "-f", "id"]),
+                 ("sort -f g -nr x", ["sort", "-f", "g", "-nr", "x"]))
+
+
+def sort_order_violation(ctx, vals, inferred, args, inp):
+    """None, or the violation: output of `mlr <args>` on records id=i,g=i%2,x=vals[i] not ordered as the inferred kinds/values demand"""
+    import struct
+    from fractions import Fraction
+    desc = "-nr" in args
+    def exact(o):
+        return Fraction(o[1]) if o[0] == "int" else Fraction(struct.unpack(">d", struct.pack(">Q", o[1]))[0])
+    def fl(o):
+        return float(o[1]) if o[0] == "int" else struct.unpack(">d", struct.pack(">Q", o[1]))[0]
+    st, out, err = mlr_run(ctx, ["--ojson", "--jvquoteall"] + args, inp, timeout=90)
+    if st != 0:
+        return {"broken": "sort -n run failed", "args": args, "stdin": inp.decode("latin1"), "status": st, "stderr": err.decode("latin1")[-400:]}
+    rows = json.loads(out.decode("utf-8", "replace"))
+    ids = [int(r["id"]) for r in rows]
+    groups = [ids] if "g" not in args else [[i for i in ids if i % 2 == 0], [i for i in ids if i % 2 == 1]]
+    for grp in groups:
+        bad = None
+        kinds = [inferred[i][0] in ("int", "float") for i in grp]
+        if not desc and kinds != sorted(kinds, reverse=True):
+            bad = ("numbers must precede non-numbers", None, None)
+        nums = [i for i in grp if inferred[i][0] in ("int", "float")]
+        for a, b in zip(nums, nums[1:]):
+            oa, ob = (inferred[b], inferred[a]) if desc else (inferred[a], inferred[b])
+            if oa[0] == "int" and ob[0] == "int":
+                wrong = oa[1] > ob[1]
+            else:
+                wrong = fl(oa) > fl(ob) and exact(oa) > exact(ob)
+            if wrong and not bad:
+                bad = ("adjacent output records out of numeric order", a, b)
+        if bad:
+            return {"broken": "sort -n disagrees with the inferred type/value of the field (the single classification): " + bad[0], "kind": "sort-n", "args": args,
+                    "stdin": inp.decode("latin1"), "values_hex": [v.hex() for v in vals],
+                    "pair": [vals[i].decode("latin1") for i in bad[1:] if i is not None], "inferred_pair": [str(inferred[i]) for i in bad[1:] if i is not None],
+                    "observed_order": [vals[i].decode("latin1") for i in grp], "class": "sort-n-vs-inferred-value", "how": "mlr %s < stdin" % " ".join(args)}
+    return None
+
+
+def sort_contexts(ctx):
+    """`sort -n` agrees with the single classification AND with the exact numeric value of every inferred number:
+    values of every magnitude (adjacent integers beyond 2^53 / 2^62 / around +-2^63, hex and binary spellings incl. the
+    two's-complement range, floats, leading-zero decimals, strings, empties) in random order through sort -nf / -nr / -nf with a
+    second key / the DSL's sort function and < operator; in the output numbers come first, every adjacent pair of ints is ordered by
+    its exact int64 value (the inferred values come from implrun infer), int/float and float/float pairs by their float64 values."""
+    rng = ctx.rng
+    nrounds = 4 if ctx.tier == "quick" else 60
+    for rnd in range(nrounds):
+        vals = []
+        for _ in range(rng.randint(6, 14)):
+            k = rng.choice([0, 1, 3, 8, 20, 31, 40, 52, 53, 54, 55, 60, 61, 62, 63])
+            base = rng.choice([2 ** k, 2 ** k - 1, 2 ** 63 - 1 - rng.randint(0, 3), 10 ** rng.randint(15, 18)])
+            base = min(base, 2 ** 63 - 1)
+            run_ = [base - d for d in range(rng.randint(1, 4))]        # adjacent integers, DESCENDING in the input
+            if rng.random() < 0.5:
+                run_ = [-v - rng.randint(0, 1) for v in run_]
+            for v in run_:
+                v = max(-2 ** 63, min(2 ** 63 - 1, v))
+                sp = rng.randrange(8)
+                if sp == 0:
+                    vals.append(b"0x%x" % (v % 2 ** 64) if (v < 0 or rng.random() < 0.3) else b"0x%x" % v)
+                elif sp == 1 and v >= 0:
+                    vals.append(b"0b" + bin(v)[2:].encode())
+                elif sp == 2 and v >= 0:
+                    vals.append(b"+%d" % v)
+                else:
+                    vals.append(b"%d" % v)
+        vals += rng.sample([b"1.5", b"-2.5e3", b"9007199254740993.0", b"1e300", b"-1e-300", b"0.0", b"-0.0", b".5", b"5.", b"abc", b"", b"0x", b"1_000", b"08", b"007",
+                            b"9223372036854775808", b"-9223372036854775809", b"1e19", b"inf", b"true", b"0xffffffffffffffff", b"0x8000000000000000"], 8)
+        if rnd % 2:
+            rng.shuffle(vals)
+        inp = b"".join(b"id=%d,g=%d,x=%s\n" % (i, i % 2, v) for i, v in enumerate(vals))
+        inferred = impl_infer(ctx, vals, "default")
+        for how, args in SORT_VARIANTS:
+            ctx.count(("sort-n", how, tuple(vals)))
+            v = sort_order_violation(ctx, vals, inferred, args, inp)
+            if v:
+                ctx.violation(v, found_input="class" in v)
+                return
+        # the DSL's ordering operators on the same field values agree with the exact values as well
+        ints = [(v, o[1]) for v, o in zip(vals, inferred) if o[0] == "int"]
+        pairs = [(ints[i], ints[i + 1]) for i in range(len(ints) - 1)][:12]
+        if pairs:
+            inp2 = b"".join(b"a=%s,b=%s\n" % (p[0][0], p[1][0]) for p in pairs)
+            st, out, err = mlr_run(ctx, ["--ojson", "put", '$lt = $a < $b; $eq = $a == $b; $ge = $a >= $b'], inp2, timeout=90)
+            if st == 0:
+                for p, r in zip(pairs, json.loads(out.decode("utf-8", "replace"))):
+                    ctx.count(("sort-n-dsl", p[0][0], p[1][0]))
+                    if r["lt"] != (p[0][1] < p[1][1]) or r["eq"] != (p[0][1] == p[1][1]) or r["ge"] != (p[0][1] >= p[1][1]):
+                        ctx.violation({"broken": "DSL < / == / >= disagree with the exact inferred int values", "a": p[0][0].decode(), "b": p[1][0].decode(), "row": r,
+                                       "class": "dsl-compare-vs-inferred-value"})
+                        return
 
 
 def known_probe(ctx):
@@ -341,6 +470,14 @@ def cli_contexts(ctx):
 
 def replay(ctx, path):
     obj = json.loads(Path(path).read_text())
+    if obj.get("kind") == "sort-n":
+        vals = [bytes.fromhex(h) for h in obj["values_hex"]]
+        v = sort_order_violation(ctx, vals, impl_infer(ctx, vals, "default"), obj["args"], obj["stdin"].encode("latin1"))
+        ctx.count(("replay", 1)); ctx.count(("replay", 2))
+        print("replay: mlr %s -> %s" % (" ".join(obj["args"]), "still out of order: %s" % v["pair"] if v else "ordered"))
+        if v:
+            ctx.violation(dict(v, replayed=True))
+        return
     s = bytes.fromhex(obj["input_hex"]) if "input_hex" in obj else obj["input"].encode("latin1")
     f = obj.get("flag", "default")
     o = impl_infer(ctx, [s], f)[0]
